@@ -10,10 +10,18 @@ Definition akind_eqb (a b : akind) : bool :=
   | _, _ => false
   end.
 
+(* a table entry ending in "." is a pure prefix (a whole package); any other entry names a variable or field and
+   covers exactly it, its sub-fields ("p.f"), its elements ("p[]") and what it points to ("p->") — NOT a
+   sibling whose name merely starts with the same letters (globalSchema.schema vs globalSchema.schemaInit) *)
+Definition ends_with_dot (p : string) : bool := has_suffix "." p.
+Definition var_matches (p v : string) : bool :=
+  if ends_with_dot p then has_prefix p v
+  else String.eqb p v || has_prefix (p ++ ".") v || has_prefix (p ++ "[") v || has_prefix (p ++ "-") v.
+
 Fixpoint prots_of (tbl : list (string * list prot)) (v : string) : list prot :=
   match tbl with
   | [] => []
-  | (p, ps) :: t => if has_prefix p v then ps else prots_of t v
+  | (p, ps) :: t => if var_matches p v then ps else prots_of t v
   end.
 
 (* "W:x" -> Some ("W", "x") *)
@@ -100,3 +108,12 @@ Definition var_covered (tbl : list (string * list prot)) (al : list allow) (g : 
       negb (is_nil (prots_of tbl (g_name g)))
       || existsb (fun a => has_prefix (g_name g) (al_var a)) al
   end.
+
+(* ---------- the copy discipline of the process-global default transformer configuration (Gen/DeepCopy.v) ---------- *)
+Definition dc_is_deep (k : dckind) : bool := match k with DCDeep => true | _ => false end.
+Definition tc_field_ok (f : string * string * bool * dckind) : bool :=
+  let '(_, _, isref, k) := f in negb isref || dc_is_deep k.
+Definition tc_type_ok (t : string * bool * bool * bool) : bool :=
+  let '(_, has, mk, cp) := t in has && mk && cp.
+Definition deepcopy_ok (fields : list (string * string * bool * dckind)) (tys : list (string * bool * bool * bool)) : bool :=
+  negb (is_nil fields) && forallb tc_field_ok fields && negb (is_nil tys) && forallb tc_type_ok tys.
